@@ -360,6 +360,7 @@ trie_node_release(struct trie *t, struct trie_node *node)
 	int empty = QB_FALSE;
 
 	if (node->key == NULL &&
+	    node->refcount == 0 &&
 	    node->parent != NULL &&
 	    qb_list_empty(node->notifier_head)) {
 		struct trie_node *p = node->parent;
@@ -401,6 +402,7 @@ trie_node_destroy(struct trie *t, struct trie_node *n)
 
 	n->key = NULL;
 	n->value = NULL;
+	n->refcount = 0;
 
 	trie_node_release(t, n);
 }
@@ -443,6 +445,16 @@ static void
 trie_node_deref(struct trie *t, struct trie_node *node)
 {
 	if (!trie_node_alive(node)) {
+		if (node->value == NULL && node->refcount > 0) {
+			/*
+			 * the entry was removed while iterators were
+			 * positioned on it, this was one of them.
+			 */
+			node->refcount--;
+			if (node->refcount == 0) {
+				trie_node_release(t, node);
+			}
+		}
 		return;
 	}
 	node->refcount--;
@@ -557,7 +569,18 @@ trie_rm(struct qb_map *map, const char *key)
 	struct trie *t = (struct trie *)map;
 	struct trie_node *n = trie_lookup(t, key, QB_TRUE);
 	if (n && trie_node_alive(n)) {
-		trie_node_deref(t, n);
+		if (n->refcount > 1) {
+			/*
+			 * iterators are positioned on it: the entry is gone
+			 * now, the node stays as their position.
+			 */
+			trie_notify(n, QB_MAP_NOTIFY_DELETED, n->key, n->value, NULL);
+			n->key = NULL;
+			n->value = NULL;
+			n->refcount--;
+		} else {
+			trie_node_deref(t, n);
+		}
 		t->length--;
 		return QB_TRUE;
 	} else {
